@@ -505,6 +505,7 @@ func Walk(b []byte) *Walked {
 		case 0:
 			k.custom()
 		case 1:
+			w.Types = nil // a repeated section replaces the earlier one in a decoder that does not reject it
 			n := k.u32(kTypeCount)
 			for i := uint32(0); i < n && !k.bad; i++ {
 				k.byteSite(kTypeForm)
@@ -525,6 +526,7 @@ func Walk(b []byte) *Walked {
 				w.TypesOK = false
 			}
 		case 2:
+			w.Imports = nil
 			n := k.u32(kImportCount)
 			for i := uint32(0); i < n && !k.bad; i++ {
 				var im ImportInfo
@@ -558,6 +560,7 @@ func Walk(b []byte) *Walked {
 				k.u32(kTypeIndex)
 			}
 		case 4:
+			w.Tables = nil
 			n := k.u32(kTableCount)
 			for i := uint32(0); i < n && !k.bad; i++ {
 				k.byteSite(kRefType)
@@ -570,6 +573,7 @@ func Walk(b []byte) *Walked {
 				w.SizesOK = false
 			}
 		case 5:
+			w.Mems = nil
 			n := k.u32(kMemCount)
 			for i := uint32(0); i < n && !k.bad; i++ {
 				l := k.limits()
